@@ -57,6 +57,12 @@ def arg_value(desc: Desc, v: View, sid: int) -> int:
 
 def pred_holds(validate, x: int) -> bool:
     kind, c = validate
+    if kind == "mbit":
+        return (x & (1 << c)) != 0
+    if kind in ("mnz", "mlow2"):
+        return x != 0
+    if kind == "minc":
+        return x + 1 != 0
     return {"eq": x == c, "ne": x != c, "lt": x < c, "bit": bool((x >> c) & 1)}[kind]
 
 
